@@ -301,6 +301,10 @@ func genC14(r *rand.Rand) *c14Input {
 }
 
 func runC14(ctx *Ctx) {
+	if ctx.Idx%50 == 49 {
+		runC14CLI(ctx)
+		return
+	}
 	in := genC14(ctx.R)
 	nt := false
 	for _, op := range in.Ops {
